@@ -17,7 +17,7 @@ ASSUMPTIONS = ["fparser1's per-statement regex parsers are leaves: their text is
                "equivalent spellings fparser1 normalises count as unchanged text: `REWIND 10` / `REWIND (10)` (also ENDFILE, BACKSPACE), "
                "`CHARACTER*8` / `CHARACTER*(*)` / `CHARACTER(LEN=…)`, the optional comma in front of a `/name/` group of COMMON and NAMELIST",
                "a statement fparser1 does not accept (its own parse error) is outside the premise and only counted"]
-TIE_MODULES = ["FparserModel.One", "FparserModel.Norm", "FparserModel.One2", "FparserModel.Generated.One2Tables", "FparserModel.Proofs.One2Generated"]
+TIE_MODULES = ["FparserModel.One", "FparserModel.Norm", "FparserModel.One2", "FparserModel.Generated.One2Tables", "FparserModel.Proofs.One2Generated", "FparserModel.One3", "FparserModel.Generated.One3Tables", "FparserModel.Proofs.One3Generated"]
 
 
 ANALYZE_SAMPLES = [
@@ -141,9 +141,36 @@ def run_zoo(case):
     return res
 
 
+# known finding F-C19-1 (pinned by one/tests/test_parsefortran.py::test_free90): an `=` inside a
+# positional control specification is taken for `keyword =`
+SPEC_PROBES = ["write (*, '(\"x=\", i3)') n", "allocate (c(merge(3, 4, i == 1)))", "write (6, \"(' a=', f8.2)\") x"]
+SPEC_OK = ["write (unit = 6, fmt = '(a)') x", "open (10, file = 'f.dat', status = 'old')", "allocate (c(10), stat = ierr)"]
+
+
+def run_probe(case):
+    m = get_model()
+    res = {"key": ["probe"], "counts": {}, "findings": [], "nontrivial": True, "keys": []}
+    for line in SPEC_PROBES + SPEC_OK:
+        src = "subroutine s\n  %s\nend subroutine s\n" % line
+        tree, err = CN.parse1(src, True)
+        res["keys"].append(line)
+        printed = [l for l in str(tree).split("\n")[1:] if l.strip()] if tree is not None else []
+        same = len(printed) == 3 and m.ask("normeq", line + "\n", printed[1] + "\n")[0] == "eq"
+        rp = {"case": case, "source": src, "isfree": True}
+        if line in SPEC_PROBES:
+            res["findings"].append({"signature": "pred:one_spec_equals_inside_positional" if not same else "probe-now-preserved",
+                                    "what": ("fparser1 printed %r for %r" % (printed[1].strip() if len(printed) == 3 else printed, line)) if not same else
+                                            ("%r, listed as known finding F-C19-1, is now printed unchanged: remove the finding" % line), "replay": rp})
+        elif not same:
+            res["findings"].append({"signature": "statement-text-changed:probe", "what": "fparser1 printed %r for %r" % (printed, line), "replay": rp})
+    return res
+
+
 def run_case(case):
     if case.get("kind") == "zoo":
         return run_zoo(case)
+    if case.get("kind") == "probe":
+        return run_probe(case)
     rng = random.Random(case["seed"])
     m = get_model()
     res = {"key": ["c19", case["seed"]], "counts": {}, "findings": [], "nontrivial": True}
@@ -224,12 +251,14 @@ def run_case(case):
 def cases(tier, seed):
     nb = util.tier_n(tier, 16, 160)
     out = [{"seed": s, "n": 40, "_timeout": 900, "analyze": i == 0} for i, s in enumerate(util.seeds(seed, nb, 19))]
+    out += [{"kind": "probe", "seed": 0}]
     out += [{"kind": "zoo", "seed": s, "_timeout": 900} for s in util.seeds(seed, util.tier_n(tier, 24, 240), 191)]
     return out
 
 
 def run(tier, rep, st):
     util.sub_cosim(rep, tier, "cosim_one2", "Fp.One2", 150, 1500)
+    util.sub_cosim(rep, tier, "cosim_one3", "Fp.One3", 80, 800)
     results = engine.run_cases(__name__, cases(tier, rep.seed), rep)
     rep.evaluations = sum(r.get("evals", 0) for r in results)
     rep.coverage["accepted_with_nesting"] = sum(r.get("nkeys", 0) for r in results)
